@@ -58,6 +58,10 @@ def replay(case) -> dict:
     via_replace = (sum(int(x) for x in cfg["p"]) + cfg["order"] + len(cfg["second"])) % 2 == 1
     desc["settings_from"] = "replace" if via_replace else "constructor"
 
+    with_empty = (sum(int(x) for x in cfg["p"]) + 2 * cfg["order"] + len(cfg["second"])) % 4 if cfg["second"] != "same_component" else 0
+    with_empty = with_empty if with_empty in (1, 2) else 0
+    desc["empty_component"] = with_empty
+
     def build(order_flip=False, dz=0.0):
         sim = TomogramSimulator(order=cfg["order"], scale=scale) if not via_replace else TomogramSimulator(order=3 if cfg["order"] != 3 else 1, scale=scale * 2.0)
         p1, p2 = p1_0 + np.array([dz, 0.0, 0.0]), p2_0 + np.array([dz, 0.0, 0.0])
@@ -79,6 +83,9 @@ def replay(case) -> dict:
             comps = [(m1, tmpl)]
         for i, (m, im) in enumerate(comps):
             sim.add_molecules(m, im, name=f"c{i}")
+        if with_empty:
+            # a component without molecules (what a filter that selects nothing leaves behind) adds nothing
+            sim.add_molecules(m1.subset([]) if with_empty == 1 else Molecules(np.zeros((0, 3))), tmpl, name="nothing")
         if via_replace:
             sim = sim.replace(order=cfg["order"], scale=scale)
         return sim
